@@ -307,15 +307,16 @@ class Simulator:
         if len(self._errors) > 0:
             return self
 
-        if self._time_shift is not None:
-            t_end -= self._time_shift
-
+        # Compare in absolute time, the integrator itself uses shifted time
         prior_t_end: float = (
             0.0 if (variables := self.variables) is None else variables[-1].index[-1]
         )
         if t_end <= prior_t_end:
             msg = "End time point has to be larger than previous end time point"
             raise ValueError(msg)
+
+        if self._time_shift is not None:
+            t_end -= self._time_shift
 
         self._handle_simulation_results(
             self.integrator.integrate(t_end=t_end, steps=steps), skipfirst=True
@@ -345,10 +346,7 @@ class Simulator:
 
         time_points = np.array(time_points, dtype=float)
 
-        if self._time_shift is not None:
-            time_points -= self._time_shift
-
-        # Check if end is actually larger
+        # Check if end is actually larger (in absolute time)
         prior_t_end: float = (
             0.0 if (variables := self.variables) is None else variables[-1].index[-1]
         )
@@ -361,6 +359,10 @@ class Simulator:
             msg = f"Overlapping time points. Removing: {time_points[~larger]}"
             _LOGGER.warning(msg)
             time_points = time_points[larger]
+
+        # The integrator itself uses shifted time
+        if self._time_shift is not None:
+            time_points -= self._time_shift
 
         self._handle_simulation_results(
             self.integrator.integrate_time_course(time_points=time_points),
